@@ -24,6 +24,11 @@ Universe == {
   <<E(0, 1), E(0, 2), E(1, 3), E(2, 3)>>,                 \* diamond
   <<E(0, 1), E(1, 2), E(0, 3), E(3, 4), F(4, 4)>>         \* two arms with different tails
 }
+\* "twins across graphs": a-x in graph g, a-y in the default graph, b-y in g, b-x in the default graph.  From a's side x and y have
+\* the same related hash (position, predicate, first-degree hash: the quad's graph name is not part of it) without being interchangeable
+Gi == [k |-> "i", v |-> <<104, 116, 116, 112, 58, 47, 47, 101, 120, 47, 103>>]
+Gn(a, b) == <<Bn(a), P, Bn(b), Gi>>
+Twins == << Gn(0, 2), E(0, 3), Gn(1, 3), E(1, 2) >>
 RECURSIVE PermSeqs2(_)
 PermSeqs2(S) == IF S = {} THEN { <<>> } ELSE UNION { { <<i>> \o p : p \in PermSeqs2(S \ {i}) } : i \in S }
 Ren(t, f) == IF t.k = "b" THEN [k |-> "b", v |-> <<120, 48 + f[t.v[2] - 47]>>] ELSE t      \* e<i> -> x<f[i+1]>
@@ -38,4 +43,10 @@ LabelIndependent ==
      LET doc == CanonDoc(D, TRUE) IN
      /\ \A f \in (IF Quick THEN {<<2, 3, 4, 5, 1>>, <<5, 4, 3, 2, 1>>, <<2, 1, 4, 3, 5>>} ELSE PermSeqs2(1..5)) : CanonDoc(Reverse([i \in 1..Len(D) |-> RenQ(D[i], f)]), TRUE) = doc
      /\ CanonDoc(D, FALSE) = doc
+\* the specification itself is NOT label-independent on the twins (expected to be violated: MC_Rdfc10_twins.cfg), and it says so (amb)
+TwinsLabelIndependent == \A f \in PermSeqs2(1..4) : CanonDoc(Reverse([i \in 1..Len(Twins) |-> RenQ(Twins[i], f \o <<5>>)]), TRUE) = CanonDoc(Twins, TRUE)
+TwinsAmbiguous == /\ CanonicalRun(Twins, TRUE, NoLimit(Twins)).amb /\ \A D \in Universe : ~CanonicalRun(D, TRUE, NoLimit(D)).amb
+                  /\ Cardinality(OutcomeDocs(Twins)) = 2 /\ CanonDoc(Twins, TRUE) \in OutcomeDocs(Twins)
+                  \* on the symmetric structures of the universe every choice the text leaves open gives the same document
+                  /\ \A D \in Universe : OutcomeDocs(D) = {CanonDoc(D, TRUE)}
 ====
